@@ -7,12 +7,37 @@ HOOK_COMMITS = subprocess.run(
     capture_output=True, text=True).stdout.strip().splitlines()
 
 CHECKS = {
+ "C02": dict(
+   engine="simnet+proptest",
+   technique="property-based testing on a simulated network: generated concurrent RPC traffic, frame limits and datagram fault scripts; oracle = pure response function F of the request + handler log (round-trip / at-most-once invariants)",
+   text="Whole networks run on an in-memory fabric under a paused clock, so content, sizes, concurrency, completion order and datagram loss/reorder/duplication are generated dimensions. Exploration; errors are allowed outcomes under faults.",
+   note="Trusted: tokio paused clock, the fabric, quinn/rustls below anemo. Health gate: fault-free cases with <99% success are inconclusive.",
+   design="§4 C02"),
  "C07": dict(
    engine="proptest+libfuzzer",
    technique="property-based testing: round-trip + differential against a hand-written reference codec, exhaustive enumeration of small sub-spaces; coverage-guided fuzzing of the decoders in the thorough tier",
    text="Generated messages and byte strings against an independent reference encoder/decoder; versions, status codes and preamble bytes enumerated completely. Exploration: it samples the message space, it does not prove the codec.",
    note="Trusted: the hand-written reference codec (refmodel::wire) as layout authority, in-memory AsyncRead/AsyncWrite standing in for QUIC streams.",
    design="§4 C07"),
+ "C11": dict(
+   engine="simnet+proptest",
+   technique="property-based testing in virtual time: generated default timeouts on both ends x timeout-header grammar x handler durations; oracle = independent min-over-optional deadline model predicting outcome and completion time",
+   text="End-to-end through Network (never the bare layer) so un-wired configuration is visible; timing oracles are exact in virtual time with a boundary band of 2x link delay. Exploration.",
+   note="Trusted: tokio paused clock (1 ms timer granularity inside the tolerance). '+'-prefixed headers not generated.",
+   design="§4 C11"),
+ "C12": dict(
+   engine="simnet+proptest",
+   level="fault_enumeration",
+   technique="property-based testing with enumerated abandon points: generated RPC shapes, the call is abandoned at every packet-event time of a reference run; generated long histories of abandoned calls beyond the stream limit; oracle = handler start/drop/finish log, service-clone count, sibling/fresh-RPC round trips",
+   text="The deciding dimension is the abandon instant, enumerated at packet-event granularity per generated shape (thinned above 64 points); histories exceed the concurrent-stream limit; services with backpressure are generated too.",
+   note="Trusted: fabric + paused clock; 'promptly' = within 1 virtual second. Between two fabric events nothing observable changes for the remote peer.",
+   design="§4 C12"),
+ "C15": dict(
+   engine="simnet+proptest",
+   technique="property-based testing: sizes within +-3 bytes of generated limits enumerated for each of the four frames and four limit placements, at codec level (in-memory) and network level (simnet); frame sizes from the reference codec; default-config sizes around 8 MiB",
+   text="Boundary sizes are enumerated around every generated limit; the oracle is the independent size computation plus intact round trip, bounded virtual return time and a follow-up RPC. Exploration over limits; known finding F4 (8 MiB default cap) is reported as KNOWN-FINDING.",
+   note="Trusted: refmodel::wire for frame sizes, fabric + paused clock.",
+   design="§4 C15"),
  "C16": dict(
    engine="proptest+libfuzzer",
    technique="property-based testing: generated route tables (route/add_rpc_service/route_layer/nested merge) and probe strings against a string-comparison reference matcher with layer bookkeeping; invocation counters as oracle",
